@@ -25,15 +25,40 @@ def gen_class(rnd, i, exhaustive=None):
     cname = f"O{i}"
     lines = []
     if overriding:
-        lines.append("@order({" + ", ".join(f"{n!r}: {ord_src(o) or 'order(0)'}" for n, o in overriding) + "})")
+        deco = "@order({" + ", ".join(f"{n!r}: {ord_src(o) or 'order(0)'}" for n, o in overriding) + "})"
         overriding = [[n, o if o[0] != "none" else ["value", "0"]] for n, o in overriding]
-    lines += ["@dataclass", f"class {cname}:"]
-    for n in names[:nf]:
-        src = ord_src(ords[n])
-        lines.append(f"    {n}: int = field(default=0" + (f", metadata={src})" if src else ")"))
-    for n in names[nf:]:
-        src = ord_src(ords[n])
-        lines += [f"    @serialized" + (f"(order={src})" if src else ""), f"    def {n}(self) -> int:", "        return 1"]
+    else: deco = None
+    inherit = rnd.random() < 0.3 and nf >= 1
+    kf = rnd.randint(1, nf) if inherit else nf           # fields / methods declared in the base class
+    km = rnd.randint(0, nm) if inherit else nm
+    redeclared = None
+    def field_line(n):
+        src = ord_src(ords[n]); return f"    {n}: int = field(default=0" + (f", metadata={src})" if src else ")")
+    def method_lines(n, o=None):
+        src = ord_src(o if o is not None else ords[n])
+        return [f"    @serialized" + (f"(order={src})" if src else ""), f"    def {n}(self) -> int:", "        return 1"]
+    if inherit:
+        lines += ["@dataclass", f"class {cname}B:"] + [field_line(n) for n in names[:kf]]
+        for n in names[nf:nf + km]: lines += method_lines(n)
+        if km and rnd.random() < 0.5:
+            # a base method registered again in the subclass with another order: the subclass' registration counts
+            redeclared = names[nf]; base_ord = ords[redeclared]
+            new_ord = rand_ord(redeclared)
+            lines_base_fix = method_lines(redeclared, base_ord)
+            ords[redeclared] = new_ord
+            # rewrite the base declaration with the base order (the loop above used the new one only if reassigned before)
+            i0 = lines.index(f"    def {redeclared}(self) -> int:") - 1
+            lines[i0:i0 + 3] = lines_base_fix
+        lines += [""]
+        if deco: lines.append(deco)
+        lines += ["@dataclass", f"class {cname}({cname}B):"] + [field_line(n) for n in names[kf:nf]]
+        if redeclared: lines += method_lines(redeclared)
+        for n in names[nf + km:]: lines += method_lines(n)
+        if len(lines) and lines[-1].endswith(f"({cname}B):"): lines.append("    pass")
+    else:
+        if deco: lines.append(deco)
+        lines += ["@dataclass", f"class {cname}:"] + [field_line(n) for n in names[:nf]]
+        for n in names[nf:]: lines += method_lines(n)
     return cname, lines, names, nf, ords, overriding
 
 
